@@ -56,6 +56,12 @@ P1: !protocol
 P2: !protocol
   sequence:
     a: int
+    shade: Shade
+    perm: Perm
+Shade: !enum
+  values: {black: 1, grey: 2, white: 3, red: 4, green: 5, blue: 6, cyan: 7}
+Perm: !flags
+  values: {r: 1, w: 2, x: 4, s: 8, t: 16, u: 32}
 Gone1: !protocol
   sequence:
     a: int
@@ -111,6 +117,37 @@ P1: !protocol
 P2: !protocol
   sequence:
     a: long
+    shade: Shade
+    perm: Perm
+Shade: !enum
+  values: {black: 1, grey: 2, white: 3, red: 4, green: 5, blue: 6, cyan: 7}
+Perm: !flags
+  values: {r: 1, w: 2, x: 4, s: 8, t: 16, u: 32}
+# a computed field that needs several dimension-lookup helpers (dimension name not known statically)
+Dims: !record
+  fields:
+    a: int[x, y]
+    b: float[p, q]
+    c: double[u, v, w]
+    d: long[k, l]
+    name: string
+  computedFields:
+    di: dimensionIndex(a, name) + dimensionIndex(b, name) + dimensionIndex(c, name) + dimensionIndex(d, name)
+    sz: size(a, name) + size(b, name) + size(c, name)
+AcquisitionHeaderRecordNumberOne: !record
+  fields:
+    a: int
+WaveformSamplesRecordNumberTwo: !record
+  fields:
+    b: int
+ImageReconstructionRecordThree: !record
+  fields:
+    c: int
+P3: !protocol
+  sequence:
+    dims: Dims
+    long: !stream
+      items: [AcquisitionHeaderRecordNumberOne, WaveformSamplesRecordNumberTwo, ImageReconstructionRecordThree]
 """
 BAD_MODEL = """A: Missing1
 B: Missing2
@@ -147,7 +184,8 @@ R: !record
 badName1: int
 badName2: int
 """
-BAD_EVO = CUR.replace("    h: Hdr\n    n: double\n", "    n: string*\n    h: Hdr\n").replace("E: !enum\n  values: [a, b, c]\n", "").replace(
+BAD_ENUMS = ("Shade: !enum\n  values: {black: 11, grey: 12, white: 13, red: 14}\nPerm: !flags\n  values: {r: 2, w: 4, x: 1}\n")
+BAD_EVO = CUR.replace("Shade: !enum\n  values: {black: 1, grey: 2, white: 3, red: 4, green: 5, blue: 6, cyan: 7}\nPerm: !flags\n  values: {r: 1, w: 2, x: 4, s: 8, t: 16, u: 32}\n", BAD_ENUMS).replace("    h: Hdr\n    n: double\n", "    n: string*\n    h: Hdr\n").replace("E: !enum\n  values: [a, b, c]\n", "").replace(
     "P2: !protocol\n  sequence:\n    a: long\n", "P2: !protocol\n  sequence:\n    a: int*\n    b: int\n")
 
 
@@ -175,6 +213,9 @@ def packages():
     cur = "namespace: Det\nimports:\n  - ../i5\n  - ../i3\n  - ../i2\n  - ../i4\n  - ../i1\n" + OUT
     model = ("M: !record\n  fields:\n    a: I1.T0\n    b: I2.T1\n    c: I3.T2\n    d: I4.T3\n    e: I5.T4\n    f: I3.UI12\n"
              "Pi: !protocol\n  sequence:\n    m: M\n    s: !stream\n      items: I5.UI44\n")
+    # a named union that contains another union: the MATLAB backend names both classes after the alias
+    pk["named-union-nesting-union"] = ({"cur/_package.yml": "namespace: Det\n" + OUT, "cur/m.yml":
+                                        "A: !union\n  i: int\n  v: !vector\n    items: [float, string]\nPn: !protocol\n  sequence:\n    x: A\n"}, [])
     pk["many-imports"] = (dict(imps, **{"cur/_package.yml": cur, "cur/m.yml": model}), [])
     return pk
 
